@@ -24,7 +24,8 @@ import TinsModel.Wire.Chain.ViewAll
       `EAPOL::from_bytes`: the key-descriptor type octet must name the class, `EapolTyped`); LLC (DSAP = SSAP = 0x42) in front of STP;
     * ARP, RTP, RC4EAPOL, RSNEAPOL: followed by a RawPDU or nothing;  STP, BootP, DHCP, DHCPv6: by nothing;
       VXLAN: by EthernetII or nothing;
-    * RadioTap: by nothing or by the Dot11 class `Dot11::from_bytes` selects from the frame-control octet;
+    * RadioTap: by the Dot11 class `Dot11::from_bytes` selects from the frame-control octet, or — only when it announces an FCS
+      (the parsing constructor rejects a buffer with fewer than 4 bytes behind the options) — by nothing;
       Dot11Data / Dot11QoSData: by SNAP (not protected), by a RawPDU (protected) or by nothing; every other Dot11 class: by nothing.
 
   Covered classes: the link-layer family (EthernetII, Dot3, LLC, SNAP, Dot1Q, MPLS, PPPoE, SLL, Loopback), IP, IPSecAH,
@@ -131,9 +132,9 @@ def LinkAll (x : AnyObj) (r : List AnyObj) : Prop :=
      | .none => True
      | .obj (.l2 (.eth _)) _ => True
      | _ => False)
-  | .wifi (.radiotap _) =>                                                        -- `Dot11::from_bytes`, no fallback
+  | .wifi (.radiotap t) =>            -- `Dot11::from_bytes`, no fallback; the constructor wants 4 bytes behind the options
     (match nextA r with
-     | .none => True
+     | .none => t.trl = 4
      | .obj (.wifi (.dot11 d)) _ => Wifi.Dot11.dispatch (Wifi.byteAt d.hdr 0) = d.cls
      | _ => False)
   | .wifi (.dot11 d) =>                              -- management / control: nothing; data: RawPDU (protected) or SNAP
